@@ -198,20 +198,27 @@ def run_property(pid, tier, seed, replay=None):
     if hits:
         broken.append(dict(kind="forbidden", name="forbidden vernacular", detail="; ".join(hits[:10])))
 
-    # thorough: independent re-check
+    # independent re-check (both tiers): coqchk re-checks EVERY module of this development - coq/Base and the property's own files - with the
+    # stand-alone checker and prints the axioms of the whole context. The installed libraries (Coq's standard library, Interval, Flocq,
+    # Coquelicot, mathcomp, Bignums) are admitted (-norec on our modules: "check the module, admit its dependencies"): re-checking Interval
+    # and what it depends on takes more than 20 minutes per property and says nothing about this development. Seconds per property.
     coqchk = None
-    if tier == "thorough" and not broken and cfg.get("properties_file"):
-        mod = "%s.%s" % (pid, cfg["properties_file"][:-2])
-        # independent re-check of the compiled property module and everything it depends on. coqchk has no VM: every vm_compute / lazy
-        # interpreter run is redone by plain conversion, which for the reflective checks (C01) and the loop proofs takes far longer than
-        # coqc did. Not finishing within the limit is therefore recorded as such and is NOT a failed obligation (coqc's kernel has accepted
-        # every proof); a definite coqchk error is.
-        lim = int(cfg.get("coqchk_timeout", 1200))
-        rc, out, err, dt = sh("timeout %d coqchk -silent -o -Q %s Py -Q . %s %s" % (lim, BASE, pid, mod), lim + 20, cwd=bdir)
-        coqchk = dict(rc=rc, wall_s=round(dt, 1), tail=(out + err)[-1500:],
-                      status=("re-checked" if rc == 0 else ("not finished within %d s (no verdict)" % lim if rc == 124 else "error")))
-        if rc not in (0, 124):
-            broken.append(dict(kind="coqchk", name=mod, detail=(out + err)[-800:]))
+    if not broken and cfg.get("properties_file"):
+        base_mods = ["Py." + l.strip()[:-2] for l in open(os.path.join(BASE, "_CoqProject")) if l.strip().endswith(".v")]
+        own_mods = ["%s.%s" % (pid, f[:-2]) for f in files]
+        lim = int(cfg.get("coqchk_timeout", 600 if tier == "quick" else 1200))
+        rc, out, err, dt = sh("timeout %d coqchk -silent -o -Q %s Py -Q . %s %s" % (lim, BASE, pid, " ".join("-norec " + m for m in base_mods + own_mods)),
+                              lim + 20, cwd=bdir)
+        txt = out + err
+        ok_chk = rc == 0          # (-silent suppresses the "Modules were successfully checked" line; a failed check exits non-zero)
+        anomalies = [l.strip() for l in txt.splitlines() if l.strip().startswith("* ") and "<none>" not in l and not l.strip().startswith("* Axioms")
+                     and not l.strip().startswith("* Theory")]
+        coqchk = dict(rc=rc, wall_s=round(dt, 1), modules_checked=base_mods + own_mods, admitted="installed libraries (Coq, Interval, Flocq, Coquelicot, mathcomp, Bignums)",
+                      summary=[l.strip() for l in txt.splitlines() if l.strip().startswith("* ")],
+                      status=("re-checked" if ok_chk else ("not finished within %d s (no verdict)" % lim if rc == 124 else "error")))
+        log.append("coqchk rc=%d %.1fs" % (rc, dt))
+        if rc != 124 and (not ok_chk or anomalies):
+            broken.append(dict(kind="coqchk", name=pid, detail=(txt[-800:] + " " + "; ".join(anomalies))[:1200]))
 
     # 3. correspondence: (a) the property's own generator, (b) PySem vs CPython on concrete inputs (harness/corr_pysem.py)
     corr = None
